@@ -694,12 +694,13 @@ Definition marshal (lk : Z -> option plan) (tag_of : Z -> option Z) (m : msg) : 
       (obs_of_status s, w_view (e_w e))
   end.
 
-(** N threads, one schedule, then everybody finishes; returns what each thread encoded. *)
-Definition run_threads (tbl : ttable) (tag_of : Z -> option Z) (fuel : nat)
+(** N threads, one schedule, then everybody finishes; returns what each thread encoded.
+    [fuel] bounds the nesting of types, [dfuel] the cache accesses of one thread. *)
+Definition run_threads (tbl : ttable) (tag_of : Z -> option Z) (fuel dfuel : nat)
     (work : list (list msg)) (sched : list nat) : list (list (obs * view)) :=
   let lkp := pure_plan tbl fuel in
   let jobs := map (lookups_of lkp tag_of) work in
-  let s := drain_all plan (deps_of tbl) (mk_of tbl) fuel
+  let s := drain_all plan (deps_of tbl) (mk_of tbl) dfuel
              (run_sched plan (deps_of tbl) (mk_of tbl) sched (init_sys [] jobs)) in
   map (fun '(ms, t) => map (marshal (lk_of_results (t_results t)) tag_of) ms)
       (combine work (snd s)).
